@@ -52,7 +52,7 @@ Lemma md_empty_app : forall a b, md_empty (a ++ b) = md_empty a && md_empty b.
 Proof. intros [|x a] b; reflexivity. Qed.
 
 Definition inv (s : wst) (g : gst) (half sent : bool) : Prop :=
-  w_closed s = false /\ w_cancelled s = false /\ w_half s = half /\ g_half g = half /\
+  w_closed s = false /\ w_ctx s = CtxLive /\ w_half s = half /\ g_half g = half /\
   w_sent s = sent /\ g_sent g = sent /\ w_trailer s = g_trl g /\
   w_header s = (if sent then g_chdr g else g_hdr g) /\ g_resp g = None /\ g_over g = false.
 
@@ -62,14 +62,68 @@ Ltac split_and :=
          | H : negb _ = true |- _ => apply negb_true_iff in H
          end.
 
+(* after the client's context has ended: whatever the handler still does, the client's final
+   Header() / Trailer() show what a real connection shows, unless the handler sets a trailer or
+   sends headers it had not sent before (recorded classes 1 and 4) *)
+Definition pinv (s : wst) (g : gst) : Prop :=
+  w_closed s = false /\ w_cancelled s = true /\ g_over g = true /\ w_sent s = g_sent g /\
+  (g_sent g = true -> w_header s = g_chdr g) /\ w_trailer s = [].
+
+Lemma post_equal : forall sh l s g half,
+  pinv s g -> w_half s = half ->
+  wf_post sh half l = true -> post_sets_trailer l = false -> k4_post (g_sent g) l = false ->
+  w_obs fx_now sh (mkWR s false false) l = g_steps sh g l.
+Proof.
+  intros sh l. induction l as [|st rest IH]; intros s g half Hinv Hhalf Hwf Hpt Hk4.
+  - discriminate.
+  - destruct s as [wh ws wt wc we wx whf], g as [gh gs gt gc ghf gr go].
+    unfold pinv in Hinv. cbn in Hinv. destruct Hinv as (? & Hx & ? & ? & Hh & ?). cbn in Hhalf. subst.
+    assert (Hgone : forall h s' t, w_gone (mkW h s' t false we wx half) = true).
+    { intros. unfold w_gone, w_cancelled. cbn. destruct wx; [discriminate | reflexivity | reflexivity]. }
+    rewrite w_obs_cons, g_steps_cons.
+    destruct st; try discriminate.
+    + (* S2C: SendMsg on the finished call *)
+      cbn in Hwf. split_and. cbn in Hpt, Hk4.
+      cbn [w_step wr_over wr_s]. rewrite Hgone. cbn.
+      erewrite IH; [reflexivity | | reflexivity | eassumption | exact Hpt | exact Hk4].
+      unfold pinv; cbn; repeat split; auto.
+    + (* SetH *)
+      cbn in Hwf. cbn in Hpt, Hk4.
+      cbn [w_step wr_over wr_s]. rewrite Hgone.
+      destruct (md_empty h) eqn:Hh0; [|destruct gs]; cbn; rewrite ?Hh0; cbn;
+        (erewrite IH; [reflexivity | | reflexivity | exact Hwf | exact Hpt | exact Hk4]);
+        unfold pinv; cbn; repeat split; auto; discriminate.
+    + (* SendH: only with headers sent before *)
+      cbn in Hwf. cbn in Hpt, Hk4. apply orb_false_iff in Hk4. destruct Hk4 as [Hs Hk4].
+      apply negb_false_iff in Hs. subst gs.
+      cbn [w_step wr_over wr_s]. rewrite Hgone. cbn.
+      erewrite IH; [reflexivity | | reflexivity | exact Hwf | exact Hpt | exact Hk4].
+      unfold pinv; cbn; repeat split; auto.
+    + (* SetT: only empty metadata *)
+      cbn in Hwf. cbn in Hpt, Hk4. apply orb_false_iff in Hpt. destruct Hpt as [Ht Hpt].
+      apply negb_false_iff in Ht. destruct t; [|discriminate].
+      cbn. erewrite IH; [reflexivity | | reflexivity | exact Hwf | exact Hpt | exact Hk4].
+      unfold pinv; cbn; repeat split; auto.
+    + (* RecvEOF: a RecvMsg that fails *)
+      cbn in Hwf. split_and. subst. cbn in Hpt, Hk4.
+      cbn [w_step wr_over wr_s]. rewrite Hgone. cbn.
+      erewrite IH; [reflexivity | | reflexivity | eassumption | exact Hpt | exact Hk4].
+      unfold pinv; cbn; repeat split; auto.
+    + (* Ret *)
+      cbn in Hwf. split_and. destruct rest; try discriminate.
+      cbn [w_step wr_over wr_s]. rewrite Hgone.
+      destruct gs; [rewrite (Hh eq_refl)|]; destruct wx; try discriminate; destruct sh, r; cbn; reflexivity.
+Qed.
+
 Lemma steps_equal : forall sh l s g half sent infl,
   inv s g half sent ->
   wf_steps sh half sent infl l = true ->
   k1_steps (negb (md_empty (g_trl g))) l = false ->
   k2_steps sh l = false ->
+  k4_steps sent l = false ->
   w_obs fx_now sh (mkWR s false false) l = g_steps sh g l.
 Proof.
-  intros sh l. induction l as [|st rest IH]; intros s g half sent infl Hinv Hwf Hk1 Hk2.
+  intros sh l. induction l as [|st rest IH]; intros s g half sent infl Hinv Hwf Hk1 Hk2 Hk4.
   - discriminate.
   - destruct s as [wh ws wt wc we wx whf], g as [gh gs gt gc ghf gr go].
     unfold inv in Hinv. cbn in Hinv.
@@ -77,73 +131,82 @@ Proof.
     rewrite w_obs_cons, g_steps_cons.
     destruct st.
     + (* C2S *)
-      cbn in Hwf. split_and. subst. cbn in Hk1, Hk2.
-      cbn. erewrite IH; [reflexivity | | eassumption | exact Hk1 | exact Hk2].
+      cbn in Hwf. split_and. subst. cbn in Hk1, Hk2, Hk4.
+      cbn. erewrite IH; [reflexivity | | eassumption | exact Hk1 | exact Hk2 | exact Hk4].
       unfold inv; cbn; repeat split; auto.
     + (* S2C *)
-      cbn in Hwf. cbn in Hk2. cbn in Hk1.
+      cbn in Hwf. cbn in Hk2. cbn in Hk1. cbn in Hk4.
       destruct (ss sh) eqn:Hss.
       * cbn. rewrite Hss. destruct sent; cbn;
-          (erewrite IH; [reflexivity | | exact Hwf | exact Hk1 | exact Hk2]);
+          (erewrite IH; [reflexivity | | exact Hwf | exact Hk1 | exact Hk2 | exact Hk4]);
           unfold inv; cbn; repeat split; auto.
-      * split_and. destruct rest as [|[| | | | | | | |rt|] [|? ?]]; try discriminate.
+      * split_and. destruct rest as [|[| | | | | | | |rt| |] [|? ?]]; try discriminate.
         destruct rt; try discriminate.
         rewrite w_obs_cons, g_steps_cons.
         destruct sh; try discriminate; destruct sent; cbn; reflexivity.
     + (* SetH *)
-      cbn in Hwf. cbn in Hk1, Hk2.
+      cbn in Hwf. cbn in Hk1, Hk2, Hk4.
       cbn. destruct (md_empty h) eqn:Hh0; [|destruct sent]; cbn;
-        (erewrite IH; [reflexivity | | exact Hwf | exact Hk1 | exact Hk2]);
+        (erewrite IH; [reflexivity | | exact Hwf | exact Hk1 | exact Hk2 | exact Hk4]);
         unfold inv; cbn; repeat split; auto.
     + (* SendH *)
-      cbn in Hwf. cbn in Hk1, Hk2.
+      cbn in Hwf. cbn in Hk1, Hk2, Hk4.
       cbn. destruct sent; cbn;
-        (erewrite IH; [reflexivity | | exact Hwf | exact Hk1 | exact Hk2]);
+        (erewrite IH; [reflexivity | | exact Hwf | exact Hk1 | exact Hk2 | exact Hk4]);
         unfold inv; cbn; repeat split; auto.
     + (* SetT *)
-      cbn in Hwf. cbn in Hk1, Hk2.
-      cbn. erewrite IH; [reflexivity | | exact Hwf | | exact Hk2].
+      cbn in Hwf. cbn in Hk1, Hk2, Hk4.
+      cbn. erewrite IH; [reflexivity | | exact Hwf | | exact Hk2 | exact Hk4].
       * unfold inv; cbn; repeat split; auto.
       * cbn. rewrite md_empty_app, negb_andb. exact Hk1.
     + (* CloseSend *)
-      cbn in Hwf. split_and. subst. cbn in Hk1, Hk2.
-      cbn. erewrite IH; [reflexivity | | eassumption | exact Hk1 | exact Hk2].
+      cbn in Hwf. split_and. subst. cbn in Hk1, Hk2, Hk4.
+      cbn. erewrite IH; [reflexivity | | eassumption | exact Hk1 | exact Hk2 | exact Hk4].
       unfold inv; cbn; repeat split; auto.
     + (* RecvEOF *)
-      cbn in Hwf. split_and. subst. cbn in Hk1, Hk2.
-      cbn. erewrite IH; [reflexivity | | eassumption | exact Hk1 | exact Hk2].
+      cbn in Hwf. split_and. subst. cbn in Hk1, Hk2, Hk4.
+      cbn. erewrite IH; [reflexivity | | eassumption | exact Hk1 | exact Hk2 | exact Hk4].
       unfold inv; cbn; repeat split; auto.
     + (* CHeader *)
-      cbn in Hwf. split_and. subst. cbn in Hk1, Hk2.
-      cbn. erewrite IH; [reflexivity | | eassumption | exact Hk1 | exact Hk2].
+      cbn in Hwf. split_and. subst. cbn in Hk1, Hk2, Hk4.
+      cbn. erewrite IH; [reflexivity | | eassumption | exact Hk1 | exact Hk2 | exact Hk4].
       unfold inv; cbn; repeat split; auto.
     + (* Ret *)
       cbn in Hwf. split_and. destruct rest; try discriminate.
       destruct sh, r, sent; cbn; reflexivity.
+    + (* CtxEnd *)
+      cbn in Hwf. split_and. cbn in Hk1, Hk4.
+      apply orb_false_iff in Hk1. destruct Hk1 as [Hk1 Hpt].
+      destruct gt; try discriminate.
+      assert (Hpost : w_obs fx_now sh (mkWR (set_ctx (ctx_of dl) (mkW (if sent then gc else gh) sent [] false we CtxLive half)) false false) rest
+                      = g_steps sh (mkG gh sent [] gc half None true) rest).
+      { eapply post_equal; [ | reflexivity | eassumption | exact Hpt | exact Hk4].
+        unfold pinv. destruct dl, sent; cbn; repeat split; auto; discriminate. }
+      destruct dl, sh, sent; cbn in *; rewrite Hpost; reflexivity.
     + (* Cancel *)
       cbn in Hwf. split_and. destruct rest; try discriminate.
       cbn in Hk1. destruct gt; try discriminate.
-      destruct sh, sent, half; cbn; reflexivity.
+      destruct dl, sh, sent, half; cbn; reflexivity.
 Qed.
 
 Lemma known_none : forall sc, precancel sc = false -> no_known sc = true ->
-  k1_steps false (steps sc) = false /\ k2_steps (shp sc) (steps sc) = false.
+  k1_steps false (steps sc) = false /\ k2_steps (shp sc) (steps sc) = false /\ k4_steps false (steps sc) = false.
 Proof.
   intros sc Hp H. unfold no_known, known_class in H. rewrite Hp in H.
   destruct (k1_steps false (steps sc)); [discriminate|].
-  destruct (k2_steps (shp sc) (steps sc)); [discriminate|]. auto.
+  destruct (k2_steps (shp sc) (steps sc)); [discriminate|].
+  destruct (k4_steps false (steps sc)); [discriminate|]. auto.
 Qed.
 
 Theorem wrapper_equals_grpc : forall sc,
   wf sc = true -> no_known sc = true -> wrap_run fx_now sc = grpc_run sc.
 Proof.
-  intros [sh rq pc l] Hwf Hnk. unfold wrap_run, wrap_exec, grpc_run, wf in *. cbn [precancel shp steps req] in *.
-  destruct pc.
-  - destruct sh; reflexivity.
-  - destruct (known_none (mkScn sh rq false l) eq_refl Hnk) as [Hk1 Hk2]. cbn [steps shp] in Hk1, Hk2.
+  intros [sh rq om pc l] Hwf Hnk. unfold wrap_run, wrap_exec, grpc_run, wf, precancel in *. cbn [pre shp steps req omd] in *.
+  destruct pc; [ | destruct l; [destruct sh; reflexivity | discriminate] .. ].
+  - destruct (known_none (mkScn sh rq om CtxLive l) eq_refl Hnk) as [Hk1 [Hk2 Hk4]]. cbn [steps shp] in Hk1, Hk2, Hk4.
     assert (Hs : forall s0, inv s0 (g_init (negb (cs sh))) (negb (cs sh)) false ->
                  snd (w_steps fx_now sh (mkWR s0 false false) l) = g_steps sh (g_init (negb (cs sh))) l).
-    { intros s0 Hi. apply (steps_equal sh l s0 _ _ _ _ Hi Hwf); [exact Hk1 | exact Hk2]. }
+    { intros s0 Hi. apply (steps_equal sh l s0 _ _ _ _ Hi Hwf); [exact Hk1 | exact Hk2 | exact Hk4]. }
     destruct sh; cbn [w_start cs is_invoke negb];
       match goal with |- context [w_steps fx_now ?sh (mkWR ?s0 false false) l] =>
         specialize (Hs s0); destruct (w_steps fx_now sh (mkWR s0 false false) l) as [r [c sv]] end;
@@ -156,7 +219,7 @@ Qed.
 Definition not_stuck (o : cobs) : bool := match o with CEnd OStuck => false | _ => true end.
 
 Definition winv (s : wst) (half sent : bool) : Prop :=
-  w_closed s = false /\ w_cancelled s = false /\ w_half s = half /\ w_sent s = sent.
+  w_closed s = false /\ w_ctx s = CtxLive /\ w_half s = half /\ w_sent s = sent.
 
 Definition w_fin fx sh r l := fst (w_steps fx sh r l).
 
@@ -165,6 +228,35 @@ Lemma w_fin_cons : forall fx sh r st rest,
 Proof.
   intros. unfold w_fin. simpl. destruct (w_step fx sh r st) as [r1 [c sv]]. simpl.
   destruct (w_steps fx sh r1 rest) as [r2 [c2 sv2]]. reflexivity.
+Qed.
+
+Lemma post_finish : forall sh l s half,
+  w_closed s = false -> w_cancelled s = true -> w_half s = half ->
+  wf_post sh half l = true ->
+  w_closed (wr_s (w_fin fx_now sh (mkWR s false false) l)) = true /\
+  forallb not_stuck (fst (w_obs fx_now sh (mkWR s false false) l)) = true.
+Proof.
+  intros sh l. induction l as [|st rest IH]; intros s half Hc Hx Hhalf Hwf.
+  - discriminate.
+  - destruct s as [wh ws wt wc we wx whf]. cbn in Hc, Hhalf. subst.
+    assert (Hx' : forall h s' t, w_cancelled (mkW h s' t false we wx half) = true) by (intros; exact Hx).
+    assert (Hgone : forall h s' t, w_gone (mkW h s' t false we wx half) = true).
+    { intros. unfold w_gone. rewrite Hx'. reflexivity. }
+    rewrite w_fin_cons, w_obs_cons. cbn [fst]. rewrite forallb_app.
+    destruct st; try discriminate.
+    + cbn in Hwf. split_and. cbn [w_step wr_over wr_s]. rewrite Hgone. cbn.
+      eapply IH; [reflexivity | apply Hx' | reflexivity | eassumption].
+    + cbn in Hwf. cbn [w_step wr_over wr_s]. rewrite Hgone.
+      destruct (md_empty h) eqn:Hh0; [|destruct ws]; cbn; rewrite ?Hh0; cbn;
+        (eapply IH; [reflexivity | apply Hx' | reflexivity | exact Hwf]).
+    + cbn in Hwf. cbn [w_step wr_over wr_s]. rewrite Hgone.
+      destruct ws; cbn; (eapply IH; [reflexivity | apply Hx' | reflexivity | exact Hwf]).
+    + cbn in Hwf. cbn. eapply IH; [reflexivity | apply Hx' | reflexivity | exact Hwf].
+    + cbn in Hwf. split_and. subst. cbn [w_step wr_over wr_s]. rewrite Hgone. cbn.
+      eapply IH; [reflexivity | apply Hx' | reflexivity | eassumption].
+    + cbn in Hwf. split_and. destruct rest; try discriminate.
+      cbn [w_step wr_over wr_s]. rewrite Hgone.
+      destruct sh, r, ws; cbn; auto.
 Qed.
 
 Lemma steps_finish : forall sh l s half sent infl,
@@ -183,7 +275,7 @@ Proof.
       eapply IH; [|eassumption]. unfold winv; cbn; repeat split; auto.
     + cbn in Hwf. destruct (ss sh) eqn:Hss.
       * cbn. rewrite Hss. destruct sent; cbn; (eapply IH; [|exact Hwf]); unfold winv; cbn; repeat split; auto.
-      * split_and. destruct rest as [|[| | | | | | | |rt|] [|? ?]]; try discriminate.
+      * split_and. destruct rest as [|[| | | | | | | |rt| |] [|? ?]]; try discriminate.
         rewrite w_fin_cons, w_obs_cons.
         destruct sh; try discriminate; destruct sent, rt; cbn; auto;
           repeat match goal with |- context [if ?b then _ else _] => destruct b end; auto.
@@ -197,17 +289,22 @@ Proof.
     + cbn in Hwf. split_and. destruct rest; try discriminate.
       destruct sh, r, sent; cbn; auto;
         repeat match goal with |- context [if ?b then _ else _] => destruct b end; auto.
+    + (* CtxEnd *)
+      cbn in Hwf. split_and.
+      assert (Hp := post_finish sh rest (set_ctx (ctx_of dl) (mkW wh sent wt false we CtxLive half)) half
+                      eq_refl (ltac:(destruct dl; reflexivity)) eq_refl ltac:(eassumption)).
+      destruct Hp as [Hp1 Hp2].
+      destruct dl, sh; cbn in *; rewrite ?Hp1, ?Hp2; auto.
     + cbn in Hwf. split_and. destruct rest; try discriminate.
-      destruct sh, sent, half; cbn; auto.
+      destruct dl, sh, sent, half; cbn; auto.
 Qed.
 
 Theorem no_goroutine_left : forall sc,
   wf sc = true ->
   handler_finished (fst (wrap_exec fx_now sc)) = true /\ never_blocked (wrap_run fx_now sc) = true.
 Proof.
-  intros [sh rq pc l] Hwf. unfold wrap_run, wrap_exec, wf, never_blocked in *. cbn [precancel shp steps req] in *.
-  destruct pc.
-  - destruct sh; split; reflexivity.
+  intros [sh rq om pc l] Hwf. unfold wrap_run, wrap_exec, wf, never_blocked, precancel in *. cbn [pre shp steps req omd] in *.
+  destruct pc; [ | destruct sh; split; reflexivity .. ].
   - assert (Hs : forall s0, winv s0 (negb (cs sh)) false ->
        w_closed (wr_s (w_fin fx_now sh (mkWR s0 false false) l)) = true /\
        forallb not_stuck (fst (w_obs fx_now sh (mkWR s0 false false) l)) = true).
@@ -287,7 +384,7 @@ Proof.
 Qed.
 
 Lemma sobs_eqb_refl : forall o, sobs_eqb o o = true.
-Proof. destruct o; cbn; auto using Z.eqb_refl, Bool.eqb_reflx. Qed.
+Proof. destruct o; cbn; auto using Z.eqb_refl, Bool.eqb_reflx, md_eqb_refl. Qed.
 
 Lemma transcript_eqb_refl : forall t, transcript_eqb t t = true.
 Proof.
@@ -298,7 +395,8 @@ Qed.
 Lemma same_view_refl : forall t, same_view t t = true.
 Proof.
   intros [c s]. unfold same_view. cbn.
-  rewrite (list_eqb_refl _ _ cobs_eqb_refl), (list_eqb_refl _ _ Z.eqb_refl). reflexivity.
+  rewrite (list_eqb_refl _ _ cobs_eqb_refl), (list_eqb_refl _ _ Z.eqb_refl), (list_eqb_refl _ _ md_eqb_refl).
+  reflexivity.
 Qed.
 
 Theorem judge_sound : forall sc,
@@ -310,3 +408,140 @@ Proof.
   rewrite <- (wrapper_equals_grpc sc Hwf Hnk), same_view_refl.
   destruct (no_goroutine_left sc Hwf) as [_ Hb]. rewrite Hb. reflexivity.
 Qed.
+
+(* ---- the judge is complete: an observation that agrees with the models satisfies the predicate ---- *)
+
+Lemma list_eqb_eq : forall A (e : A -> A -> bool), (forall x y, e x y = true -> x = y) ->
+  forall a b, list_eqb e a b = true -> a = b.
+Proof.
+  intros A e He. induction a as [|x a IH]; intros [|y b] H; cbn in H; try discriminate; [reflexivity|].
+  apply andb_prop in H. destruct H as [H1 H2]. rewrite (He _ _ H1), (IH _ H2). reflexivity.
+Qed.
+
+Lemma md_eqb_eq : forall a b, md_eqb a b = true -> a = b.
+Proof.
+  apply list_eqb_eq. intros [a b] [c d] H. cbn in H. apply andb_prop in H. destruct H as [H1 H2].
+  apply Z.eqb_eq in H1, H2. subst. reflexivity.
+Qed.
+
+Lemma outcome_eqb_eq : forall a b, outcome_eqb a b = true -> a = b.
+Proof.
+  intros [] [] H; cbn in H; try discriminate; try reflexivity.
+  apply andb_prop in H. destruct H as [H1 H2]. apply Z.eqb_eq in H1, H2. subst. reflexivity.
+Qed.
+
+Lemma cobs_eqb_eq : forall a b, cobs_eqb a b = true -> a = b.
+Proof.
+  intros [] [] H; cbn in H; try discriminate; try reflexivity.
+  - apply Bool.eqb_prop in H. subst. reflexivity.
+  - apply Z.eqb_eq in H. subst. reflexivity.
+  - apply outcome_eqb_eq in H. subst. reflexivity.
+  - apply md_eqb_eq in H. subst. reflexivity.
+  - apply md_eqb_eq in H. subst. reflexivity.
+Qed.
+
+Lemma sobs_eqb_eq : forall a b, sobs_eqb a b = true -> a = b.
+Proof.
+  intros [] [] H; cbn in H; try discriminate; try reflexivity;
+    try (apply Z.eqb_eq in H; subst; reflexivity);
+    try (apply Bool.eqb_prop in H; subst; reflexivity).
+  apply md_eqb_eq in H. subst. reflexivity.
+Qed.
+
+Lemma transcript_eqb_eq : forall a b, transcript_eqb a b = true -> a = b.
+Proof.
+  intros [c s] [c' s'] H. unfold transcript_eqb in H. cbn in H. apply andb_prop in H. destruct H as [H1 H2].
+  apply (list_eqb_eq _ _ cobs_eqb_eq) in H1. apply (list_eqb_eq _ _ sobs_eqb_eq) in H2. subst. reflexivity.
+Qed.
+
+Lemma shape_none_lookup : forall m, shape_of_method m = None -> lookup m method_table = None.
+Proof.
+  intros m H. unfold shape_of_method in H. cbn -[Z.eqb].
+  rewrite (Z.eqb_sym 0 m), (Z.eqb_sym 1 m), (Z.eqb_sym 2 m), (Z.eqb_sym 3 m).
+  destruct (m =? 0); [discriminate|]. destruct (m =? 1); [discriminate|].
+  destruct (m =? 2); [discriminate|]. destruct (m =? 3); [discriminate|]. reflexivity.
+Qed.
+
+Lemma unwrap_chain : forall ids leaf, unwrap_fully (mk_chain ids leaf) = Plain leaf.
+Proof. induction ids as [|i r IH]; intro leaf; cbn; [reflexivity | apply IH]. Qed.
+
+Lemma unwrap_is_plain : forall o, exists i, unwrap_fully o = Plain i.
+Proof. induction o as [i | i o IH]; cbn; [exists i; reflexivity | exact IH]. Qed.
+
+Lemma unwrap_idempotent : forall o, unwrap_fully (unwrap_fully o) = unwrap_fully o.
+Proof. intro o. destruct (unwrap_is_plain o) as [i ->]. reflexivity. Qed.
+
+(* every observation that agrees with the two models and lies in the fragment, outside the recorded
+   classes, satisfies the property predicate: verdict 2 cannot come from the predicate being stricter
+   than the models *)
+Theorem judge_complete : forall c,
+  agrees c = true -> C13_guard c = true -> C13_known c = None -> C13_ok c = true.
+Proof.
+  intros [sc tw tg | m via cw cg | m a b cw | k rw rg | ids leaf got] Ha Hg Hk; cbn in *.
+  - apply andb_prop in Ha. destruct Ha as [H1 H2].
+    apply transcript_eqb_eq in H1, H2. subst.
+    assert (Hnk : no_known sc = true) by (unfold no_known; rewrite Hk; reflexivity).
+    rewrite <- (wrapper_equals_grpc sc Hg Hnk), same_view_refl.
+    destruct (no_goroutine_left sc Hg) as [_ Hb]. rewrite Hb. reflexivity.
+  - apply andb_prop in Ha. destruct Ha as [H1 H2].
+    destruct (shape_of_method m) eqn:Hs; [discriminate|].
+    destruct (unknown_method_unimplemented m (shape_none_lookup m Hs)) as [Hi Hn].
+    rewrite Hi, (Hn false false) in H1. unfold grpc_unknown_method_code in H2.
+    apply Z.eqb_eq in H2. subst cg. destruct via; cbn in H1; rewrite H1; reflexivity.
+  - apply Z.eqb_eq in Ha. subst cw. unfold shape_of_method, newstream_lookup. cbn -[Z.eqb].
+    rewrite (Z.eqb_sym 0 m), (Z.eqb_sym 1 m), (Z.eqb_sym 2 m), (Z.eqb_sym 3 m).
+    destruct (m =? 0); [destruct a, b; reflexivity|].
+    destruct (m =? 1); [destruct a, b; reflexivity|].
+    destruct (m =? 2); [destruct a, b; reflexivity|].
+    destruct (m =? 3); [destruct a, b; reflexivity|]. reflexivity.
+  - discriminate.
+  - apply Z.eqb_eq in Ha. subst got. rewrite unwrap_chain. cbn. apply Z.eqb_refl.
+Qed.
+
+Corollary judge_zero : forall c,
+  agrees c = true -> C13_guard c = true -> C13_known c = None -> judge c = 0.
+Proof.
+  intros c Ha Hg Hk. unfold judge. rewrite Ha, Hg, (judge_complete c Ha Hg Hk). reflexivity.
+Qed.
+
+(* ---- a message is copied before SendMsg returns ---- *)
+
+Lemma hread_merge_same : forall d s h, hread d (merge d s h) = hread s h.
+Proof. intros. unfold merge, hwrite. cbn. rewrite Z.eqb_refl. reflexivity. Qed.
+
+Lemma hread_merge_other : forall a d s h, a <> d -> hread a (merge d s h) = hread a h.
+Proof. intros a d s h Hn. unfold merge, hwrite. cbn. destruct (Z.eqb_spec d a); [congruence | reflexivity]. Qed.
+
+(* whatever the sender (or anybody else) writes between the moment SendMsg returns and the moment the
+   receiver copies, to any object but the private snapshot, the receiver ends up with the content the
+   message had when SendMsg was called *)
+Theorem send_snapshot_isolated : forall h src tmp dst between,
+  (forall p, In p between -> fst p <> tmp) ->
+  hread dst (send_recv true src tmp dst between h) = hread src h.
+Proof.
+  intros h src tmp dst between Hb. unfold send_recv.
+  rewrite hread_merge_same, hread_apply_writes by exact Hb. apply hread_merge_same.
+Qed.
+
+(* ... and the sender's object is left alone by the transfer itself *)
+Theorem send_snapshot_sender_untouched : forall h src tmp dst,
+  src <> tmp -> src <> dst -> hread src (send_recv true src tmp dst [] h) = hread src h.
+Proof.
+  intros h src tmp dst H1 H2. unfold send_recv, apply_writes. cbn [fold_left].
+  rewrite hread_merge_other by exact H2. apply hread_merge_other. exact H1.
+Qed.
+
+(* the code before 80ea756: a handler that reuses its message right after Send changes what the client gets *)
+Lemma send_no_snapshot_refuted : exists h src tmp dst between,
+  (forall p, In p between -> fst p <> tmp /\ fst p <> dst) /\
+  hread dst (send_recv false src tmp dst between h) <> hread src h.
+Proof.
+  exists [(1, 5)], 1, 3, 2, [(1, 99)]. split.
+  - intros p [<-|[]]. cbn. split; discriminate.
+  - cbn. discriminate.
+Qed.
+
+(* the handler's incoming metadata is a copy of the client's outgoing map *)
+Theorem incoming_md_cloned : forall a h ws,
+  mget (clone_md a h) (apply_mwrites ws h) = mread a h.
+Proof. reflexivity. Qed.
